@@ -3,9 +3,12 @@ package checks
 import (
 	"context"
 	"encoding/json"
+	"errors"
 	"fmt"
 	"strings"
 	"time"
+
+	"github.com/creachadair/jrpc2"
 
 	"verif/harness/peer"
 	"verif/harness/sched"
@@ -70,7 +73,8 @@ func c01tCases(e vt.Env, yield func(vt.Case) bool) bool {
 func c01tExec(c *vt.Ctx, script []string, conc int, ctrl *sched.Controller) {
 	peer.Bubble(c, ctrl, func() {
 		rig := peer.NewServerRig(c, ctrl, peer.ServerOpts{Concurrency: conc, BaseContext: func() context.Context {
-			ctx, cancel := context.WithTimeout(context.Background(), time.Second)
+			// the deadline carries an explicit cause, as an application's may
+			ctx, cancel := context.WithTimeoutCause(context.Background(), time.Second, errors.New("request budget exhausted"))
 			_ = cancel // the context ends by its deadline; nothing else ends it
 			return ctx
 		}})
@@ -184,6 +188,15 @@ func c01tExec(c *vt.Ctx, script []string, conc int, ctrl *sched.Controller) {
 					c.Failf("T %v c%d: call %s (%s), whose handler was %s, answered with error %d %q", script, conc, id, mem.tag,
 						map[bool]string{true: "already running when the clock moved", false: "invoked with a live context"}[startedBefore[mem.tag]], m.Error.Code, m.Error.Message)
 				} else {
+					// it gave up waiting for a slot: a cancellation error (the context's own:
+					// deadline exceeded or cancelled, not its cause), and its handler never ran
+					if m.Error.Code != int(jrpc2.DeadlineExceeded) && m.Error.Code != int(jrpc2.Cancelled) {
+						c.Failf("T %v c%d: call %s (%s), whose context ended while it waited for a slot, answered with error %d %q; want a cancellation error (%d or %d)",
+							script, conc, id, mem.tag, m.Error.Code, m.Error.Message, jrpc2.DeadlineExceeded, jrpc2.Cancelled)
+					}
+					if enters[mem.tag] != 0 {
+						c.Failf("T %v c%d: call %s (%s) answered with a cancellation error although its handler ran", script, conc, id, mem.tag)
+					}
 					c.Count("calls_answered_with_context_error", 1)
 				}
 			}
